@@ -8,7 +8,8 @@ tie        translator (tables + evaluated MOP behaviour, re-checked by `decide`)
            the conversion touches), `convert_file` (keyword order of the file written after conversion vs the
            model's update_sections), `history_lines` (FOFT/COFT/GOFT name lines written and re-read), `short_lines` (SHORT heading and sub-sections
            written and re-read),
-           `waiwera_eos`, `waiwera_rocks`, `waiwera_sources` (eos_json / rocks_json / generators_json vs model)
+           `waiwera_eos`, `waiwera_rocks`, `waiwera_sources`, `waiwera_boundary`, `waiwera_faces` (eos_json / rocks_json /
+           generators_json / boundaries_json vs model)
 oracle     the clauses of the property evaluated on the real converted object, on the file it writes and
            reads back, and on the dict returned by json()
 """
@@ -1065,6 +1066,25 @@ def wai_real(case):
     except Exception as e:
         obs['src'] = 'exc ' + exc_name(e)
     obs['bdy'] = 'ok ' + eL(eS, [b.name for b in d.grid.blocklist if not (0. < b.volume < case['atmos_volume'])])
+    # boundary faces, block by block: boundary conditions with a different pressure for every block, so that the
+    # "collapse equal boundaries" pass leaves one entry per boundary block and the entry can be attributed
+    obs['faces'] = None
+    if case['atmos_volume'] <= 1.e25:
+        import t2incons
+        inc = t2incons.t2incon()
+        for k, blk in enumerate(d.grid.blocklist):
+            inc[blk.name] = [1.e5 + 8 * k, 20., 0.25, 0.0]
+        try:
+            j = quiet(d.boundaries_json, geo, inc, case['atmos_volume'], 'we', 'xyz')
+            ent = []
+            for bc in j['boundaries']:
+                k = int(round((float(bc['primary'][0]) - 1.e5) / 8))
+                f = bc['faces']
+                cells = list(f['cells']) if isinstance(f, dict) else [c for x in f for c in x['cells']]
+                ent.append((d.grid.blocklist[k].name, sorted(int(c) for c in cells)))
+            obs['faces'] = ('ok', ent)
+        except Exception as e:
+            obs['faces'] = ('exc ' + exc_name(e), None)
     # the whole export
     try:
         full = quiet(d.json, geo, 'mesh.exo', atmos_volume=case['atmos_volume'], eos=arg)
@@ -1087,14 +1107,16 @@ def wai_requests(case, geo, d):
         'rocks': 'rocks %s %s %d %s %s' % (eL(eS, [r.name for r in d.grid.rocktypelist]), eL(eS, names), geo.num_atmosphere_blocks,
                                            blocks, eQ(case['atmos_volume'])),
         'src': 'src %s %d %s %d' % (eL(eS, names), geo.num_atmosphere_blocks, gens, len(d.generator)),
-        'bdy': 'bdy %s %s' % (blocks, eQ(case['atmos_volume']))}
+        'bdy': 'bdy %s %s' % (blocks, eQ(case['atmos_volume'])),
+        'faces': 'faces %s %d %s %s %s' % (eL(eS, names), geo.num_atmosphere_blocks, blocks, eQ(case['atmos_volume']),
+                                           eL(lambda c: eS(c.block[0].name) + ' ' + eS(c.block[1].name), d.grid.connectionlist))}
 
 
 def VW(key, what, case):
     return dict(key=key, what=what, case={'waiwera': case})
 
 
-def oracle_waiwera(case, geo, d, full, err):
+def oracle_waiwera(case, geo, d, full, err, faces=None):
     """the export clauses of the property on the dict returned by json()"""
     out = []
     mode, name = case['eos']['mode'], case['eos']['name']
@@ -1140,6 +1162,26 @@ def oracle_waiwera(case, geo, d, full, err):
             out.append(VW('rock-cells-partition', 'boundary block %r (volume %r) occurs in a rock cell list as cell %d' % (bn, blk.volume, cell), case)); break
     if len(allcells) != n_int and not out:
         out.append(VW('rock-cells-partition', '%d cells listed for %d non-boundary blocks' % (len(allcells), n_int), case))
+    # boundary faces: block by block (observed through boundaries_json with distinct primaries per block)
+    if faces is not None and not out:
+        if faces[0] != 'ok':
+            out.append(VW('boundary-faces-raise', 'boundaries_json raises %s' % faces[0], case))
+        else:
+            index = {bn: i for i, bn in enumerate(geo.block_name_list)}
+            def is_int(b): return 0. < b.volume < case['atmos_volume']
+            want = []
+            for blk in d.grid.blocklist:
+                if is_int(blk): continue
+                cells = []
+                for con in d.grid.connectionlist:
+                    nm = [b.name for b in con.block]
+                    if blk.name in nm:
+                        other = con.block[1] if con.block[0] is blk else con.block[0]
+                        if is_int(other): cells.append(index[other.name] - nat)
+                if cells: want.append((blk.name, sorted(cells)))
+            if want != faces[1]:
+                out.append(VW('boundary-faces', 'boundary entries (block, face cells) are %r, the boundary blocks and their non-boundary neighbours are %r'
+                              % (faces[1][:6], want[:6]), case))
     # sources
     grp = [g for g in d.generatorlist if g.type != 'TMAK']
     src = full.get('source', [])
@@ -1254,7 +1296,7 @@ THEOREMS = ['Props.C20.' + t for t in [
     'add_generator_spec', 'delete_generator_spec', 'insert_delete_section_spec',
     'section_ops_keep_order', 'converted_sections_ordered',
     'distinct_objects_same_obj', 'lookup_last_one_wins',
-    'to_autough2_short_roundtrip', 'short_section_roundtrip',
+    'to_autough2_short_roundtrip', 'short_section_roundtrip', 'boundary_faces_partition',
 ]] + [
     # obligations on the generated tables (decide over the whole table, re-elaborated against /repo's current tables)
     'Proofs.Convert.convert_targets_tough2',
@@ -1430,7 +1472,7 @@ def _run(ctx, scale=1.0, model=True):
                 'or a generator outside the grid/in the atmosphere')
     use_model = model and ctx.model_ok
     fc, ff, fh, fsl = res.facet('convert'), res.facet('convert_file'), res.facet('history_lines'), res.facet('short_lines')
-    fe, fr, fs, fb = res.facet('waiwera_eos'), res.facet('waiwera_rocks'), res.facet('waiwera_sources'), res.facet('waiwera_boundary')
+    fe, fr, fs, fb, fw = res.facet('waiwera_eos'), res.facet('waiwera_rocks'), res.facet('waiwera_sources'), res.facet('waiwera_boundary'), res.facet('waiwera_faces')
     lines, expect = [], []        # driver requests and (facet, expected reply, case-json, decode?)
     hyp_nodup, hyp_ids, hyp_wf, hyp_rt, hyp_hg, hyp_ord = [0, 0], [0, 0], [0, 0], [0, 0], [0, 0], [0, 0]
     for case in conv_stream(ctx, scale):
@@ -1531,7 +1573,7 @@ def _run(ctx, scale=1.0, model=True):
     for case in wai_stream(ctx, scale):
         geo, d, obs, full, err = wai_real(case)
         res.evaluations += 1
-        res.violations += oracle_waiwera(case, geo, d, full, err)
+        res.violations += oracle_waiwera(case, geo, d, full, err, obs['faces'])
         res.count('wai-eos-mode:' + case['eos']['mode'])
         res.count('wai-atm:%d' % case['geo']['atm'])
         res.count('wai-order:%s' % case['geo']['order'])
@@ -1543,8 +1585,12 @@ def _run(ctx, scale=1.0, model=True):
         rq = wai_requests(case, geo, d)
         for k2, fac in (('eos', 'waiwera_eos'), ('rocks', 'waiwera_rocks'), ('src', 'waiwera_sources'), ('bdy', 'waiwera_boundary')):
             lines.append(rq[k2]); expect.append((fac, obs[k2], {'waiwera': case}, None))
+        if obs['faces'] is not None:
+            exp = obs['faces'][0] if obs['faces'][1] is None else \
+                'ok ' + eL(lambda f: eS(f[0]) + ' ' + eL(lambda i: 'i%d' % i, f[1]), obs['faces'][1])
+            lines.append(rq['faces']); expect.append(('waiwera_faces', exp, {'waiwera': case}, None))
         if res.evaluations % 300 == 2:
-            res.sample({'waiwera': True, 'eos': case['eos'], 'simulator': case['simulator'], 'observed': {k: v[:80] for k, v in obs.items()}})
+            res.sample({'waiwera': True, 'eos': case['eos'], 'simulator': case['simulator'], 'observed': {k: str(v)[:80] for k, v in obs.items()}})
     # model
     if use_model:
         out = core.run_driver('drv_c20', lines)
@@ -1553,6 +1599,10 @@ def _run(ctx, scale=1.0, model=True):
             f['cases'] += 1
             if rep.startswith('bad-request'):
                 raise RuntimeError('driver could not parse a request of facet %s' % fac)
+            if fac == 'waiwera_faces' and rep.startswith('ok '):
+                tk = _Tok(rep[3:])
+                ent = tk.lst(lambda: (tk.s(), sorted(tk.lst(lambda: int(tk.next()[1:])))))
+                rep = 'ok ' + eL(lambda f: eS(f[0]) + ' ' + eL(lambda i: 'i%d' % i, f[1]), ent)
             if fac == 'convert_file':
                 kind, e, ms = decode_reply(rep)
                 got = ms['sections'] if kind == 'ok' else None
@@ -1603,7 +1653,7 @@ def replay(ctx, payload):
         case['multi'] = [tuple(x) for x in case['multi']]
         case['gens'] = [tuple(x) for x in case['gens']]
         geo, d, obs, full, err = wai_real(case)
-        viol = oracle_waiwera(case, geo, d, full, err)
+        viol = oracle_waiwera(case, geo, d, full, err, obs['faces'])
         txt = 'json(): %s; eos %s; sources %s' % ('ok' if err is None else err, obs['eos'], obs['src'][:120])
     else:
         case = case_unjson(c)
